@@ -613,6 +613,13 @@ impl<'a> LeafNodeMut<'a> {
         let new_frag = header.frag_bytes().saturating_add(cell_size as u8);
         header.set_frag_bytes(new_frag);
 
+        if cell_count == 1 {
+            // the last cell is gone: reclaim the whole cell area (frag_bytes is a u8 and never reaches
+            // the compaction threshold, so an emptied leaf would otherwise stay "full")
+            header.set_free_end(PAGE_SIZE as u16);
+            header.set_frag_bytes(0);
+        }
+
         if self.should_compact() {
             self.compact()?;
         }
